@@ -133,6 +133,21 @@ theorem parseNumberFixed_sound (s : Bytes) (n : Nat) (h : parseNumberFixed s = s
   obtain ⟨p, rest, rfl, rfl, _, hp⟩ := (parseNumberFixed_exact s n).1 h
   rwa [List.take_left' rfl]
 
+/-- membership in the RFC 8259 number grammar is decided by running the repaired function on the whole
+string (this is the `rfcnumber`/`numspec` voice of the model driver, compared with
+`encoding/json.Valid` by the harness) -/
+theorem number_iff (p : Bytes) : Number p ↔ parseNumberFixed p = some p.length := by
+  rw [parseNumberFixed_exact]
+  constructor
+  · intro h; exact ⟨p, [], by simp, rfl, DelimOK.nil, h⟩
+  · rintro ⟨q, rest, hs, hl, _, hq⟩
+    have : rest = [] := by
+      have := congrArg List.length hs
+      simp at this
+      exact List.length_eq_zero_iff.1 (by omega)
+    subst this
+    simp at hs; subst hs; exact hq
+
 /-- the repair only removes the dangling-exponent inputs: on everything the repaired function
 accepts, the current one agrees -/
 theorem parseNumberFixed_le (s : Bytes) (n : Nat) (h : parseNumberFixed s = some n) :
@@ -286,6 +301,15 @@ theorem encoder_valid (rnd : Bool) (indent : Bytes) (hind : AllWs indent) (v : J
     ∃ out, encodeValue rnd indent v = some (out, true) ∧ JsonText out := by
   obtain ⟨out, h1, h2, h3⟩ := encoder_output rnd indent hind v hv
   exact ⟨out, h1, toksOf v, h2, h3⟩
+
+/-- `WriteInt`/`WriteUint` are `WriteFloat`-like calls with the literals `[-]decimal` (`strconv.AppendInt/
+AppendUint` from their contract, tied by the harness), and these literals are RFC 8259 numbers — so
+`encoder_output` covers them through `JVal.num`. -/
+theorem writeInt_literal (rnd : Bool) (e : Enc) (n : Int) (u : Nat) :
+    encStep rnd e (.int n) = encStep rnd e (.float (if n < 0 then 0x2d#8 :: decimal n.natAbs else decimal n.natAbs)) ∧
+    encStep rnd e (.uint u) = encStep rnd e (.float (decimal u)) ∧
+    Number (if n < 0 then 0x2d#8 :: decimal n.natAbs else decimal n.natAbs) ∧ Number (decimal u) :=
+  ⟨rfl, rfl, intLiteral_number n, decimal_number u⟩
 
 /-- whitespace-insensitivity, spelled out for two settings -/
 theorem encoder_indent_insensitive (rnd1 rnd2 : Bool) (ind1 ind2 : Bytes) (h1 : AllWs ind1) (h2 : AllWs ind2)
